@@ -500,7 +500,10 @@ func (mbox *MailboxView) staticNumSet(numSet imap.NumSet) imap.NumSet {
 			staticNumRange(&r.Start, &r.Stop, max)
 		}
 	case imap.UIDSet:
-		max := uint32(mbox.uidNext) - 1
+		var max uint32
+		if len(mbox.l) > 0 {
+			max = uint32(mbox.l[len(mbox.l)-1].uid)
+		}
 		for i := range numSet {
 			r := &numSet[i]
 			staticNumRange((*uint32)(&r.Start), (*uint32)(&r.Stop), max)
